@@ -559,3 +559,29 @@ Proof.
   nsh [@nil nop] NDec (@nil nop) [@nil nop].
   constructor. repeat constructor.
 Qed.
+
+(* ---- the "decrement, then read again" destructor is refuted: two owners, each releasing its
+   reference; when both decrements come before both re-reads, both read zero and both free ---- *)
+Definition reread_ths : list (list dop) := [[DDecOnly; DCheck]; [DDecOnly; DCheck]].
+Definition reread_bad : list dop := [DDecOnly; DDecOnly; DCheck; DCheck].
+Theorem reread_refuted :
+  dshuffle reread_ths reread_bad /\
+  frees (drun (init [1; 1]) reread_bad) = 2 /\ uaf (drun (init [1; 1]) reread_bad) = true /\
+  map dmerge reread_ths = [[Dec]; [Dec]] /\ Forall2 thread_ok [1; 1] [[Dec]; [Dec]] /\
+  (forall l, shuffle [[Dec]; [Dec]] l -> frees (rrun (init [1; 1]) l) = 1 /\ uaf (rrun (init [1; 1]) l) = false).
+Proof.
+  split.
+  { unfold reread_ths, reread_bad.
+    apply (dshuffle_cons [] DDecOnly [DCheck] [[DDecOnly; DCheck]]); cbn [app].
+    apply (dshuffle_cons [[DCheck]] DDecOnly [DCheck] []); cbn [app].
+    apply (dshuffle_cons [] DCheck [] [[DCheck]]); cbn [app].
+    apply (dshuffle_cons [[]] DCheck [] []); cbn [app].
+    apply dshuffle_nil. repeat constructor. }
+  split; [vm_compute; reflexivity|]. split; [vm_compute; reflexivity|].
+  split; [reflexivity|].
+  assert (Hok : Forall2 thread_ok [1; 1] [[Dec]; [Dec]]) by (repeat constructor; cbn; lia).
+  split; [exact Hok|].
+  intros l HS. split.
+  - apply (freed_iff_all_released [[Dec]; [Dec]] [1; 1] l Hok); [cbn; lia | exact HS | reflexivity].
+  - apply (no_use_after_free [[Dec]; [Dec]] [1; 1] l Hok); [cbn; lia | exact HS].
+Qed.
